@@ -93,6 +93,7 @@ type Opts struct {
 	WithCeremony      bool
 	Ipfs              ipfs.Proxy // shared content store (the "network")
 	Network           types.Network
+	Debug             bool // cfg.IsDebug (the bundled WASM test contracts import env.debug)
 }
 
 func DefaultConsensus() *config.ConsensusConf {
@@ -169,6 +170,7 @@ func New(o Opts, db dbm.DB) (*Replica, error) {
 		Mempool:          o.Mempool,
 		Sync:             &config.SyncConfig{},
 		IpfsConf:         &config.IpfsConfig{},
+		IsDebug:          o.Debug,
 	}
 	r := &Replica{Opts: o, Cfg: cfg, DB: db, Bus: eventbus.New(), Sec: Sec(o.KeyIdx), Ipfs: o.Ipfs}
 	var err error
